@@ -1,19 +1,19 @@
 package symterp
 
 import (
-	"bufio"
 	"fmt"
 	"go/token"
 	"go/types"
-	"io"
 	"math"
-	"os/exec"
-	"sort"
 	"strings"
-	"time"
 )
 
-// ---- symbolic scalar values (spike: SMT-LIB text terms, no hash-consing)
+// ---- symbolic scalar values: SMT-LIB2 text terms --------------------------------------
+//
+// Integers are bit-vectors of their Go width, floats use the FloatingPoint theory, strings
+// are bounded byte vectors (symStr). All-concrete operands never reach this file: the
+// interpreter's native path handles them.
+
 type symI struct {
 	w      int
 	signed bool
@@ -26,10 +26,39 @@ type symF struct {
 	t    string
 }
 
-func isSym(v value) bool {
+func isSymScalar(v value) bool {
 	switch v.(type) {
-	case symI, symB, symF, symStr:
+	case symI, symB, symF, symStr, opaqueStr:
 		return true
+	}
+	return false
+}
+
+// containsSym reports whether v has a symbolic leaf (not following pointers).
+func containsSym(v value) bool {
+	switch x := v.(type) {
+	case symI, symB, symF, symStr, opaqueStr:
+		return true
+	case structure:
+		for _, f := range x {
+			if containsSym(f) {
+				return true
+			}
+		}
+	case array:
+		for _, f := range x {
+			if containsSym(f) {
+				return true
+			}
+		}
+	case iface:
+		return containsSym(x.v)
+	case tuple:
+		for _, f := range x {
+			if containsSym(f) {
+				return true
+			}
+		}
 	}
 	return false
 }
@@ -40,6 +69,8 @@ func fpSort(bits int) string {
 	}
 	return "11 53"
 }
+func fpSortFull(bits int) string { return "(_ FloatingPoint " + fpSort(bits) + ")" }
+func bvSort(w int) string        { return fmt.Sprintf("(_ BitVec %d)", w) }
 
 func bvConst(u uint64, w int) string {
 	if w < 64 {
@@ -48,7 +79,144 @@ func bvConst(u uint64, w int) string {
 	return fmt.Sprintf("(_ bv%d %d)", u, w)
 }
 
-// lift concrete scalar to the sort of the symbolic partner
+func mkNot(c string) string {
+	switch {
+	case c == "true":
+		return "false"
+	case c == "false":
+		return "true"
+	case strings.HasPrefix(c, "(not ") && balancedSingle(c[5:len(c)-1]):
+		return c[5 : len(c)-1]
+	}
+	return "(not " + c + ")"
+}
+
+// balancedSingle: s is exactly one s-expression or atom
+func balancedSingle(s string) bool {
+	if s == "" {
+		return false
+	}
+	if s[0] != '(' {
+		return !strings.ContainsAny(s, " ()")
+	}
+	depth := 0
+	for i, c := range s {
+		if c == '(' {
+			depth++
+		} else if c == ')' {
+			depth--
+			if depth == 0 && i != len(s)-1 {
+				return false
+			}
+		}
+	}
+	return depth == 0
+}
+
+func mkAnd(cs ...string) string {
+	var out []string
+	for _, c := range cs {
+		if c == "false" {
+			return "false"
+		}
+		if c != "true" {
+			out = append(out, c)
+		}
+	}
+	switch len(out) {
+	case 0:
+		return "true"
+	case 1:
+		return out[0]
+	}
+	return "(and " + strings.Join(out, " ") + ")"
+}
+
+func mkOr(cs ...string) string {
+	var out []string
+	for _, c := range cs {
+		if c == "true" {
+			return "true"
+		}
+		if c != "false" {
+			out = append(out, c)
+		}
+	}
+	switch len(out) {
+	case 0:
+		return "false"
+	case 1:
+		return out[0]
+	}
+	return "(or " + strings.Join(out, " ") + ")"
+}
+
+func mkIte(c, a, b string) string {
+	if c == "true" || a == b {
+		return a
+	}
+	if c == "false" {
+		return b
+	}
+	return "(ite " + c + " " + a + " " + b + ")"
+}
+
+func boolVal(t string) value {
+	switch t {
+	case "true":
+		return true
+	case "false":
+		return false
+	}
+	return symB{cur.share(t, "Bool")}
+}
+
+func newI(w int, signed bool, kind types.BasicKind, t string) symI {
+	return symI{w, signed, kind, cur.share(t, bvSort(w))}
+}
+func newF(bits int, t string) symF { return symF{bits, cur.share(t, fpSortFull(bits))} }
+
+var kindWidth = map[types.BasicKind]int{types.Int: 64, types.Int64: 64, types.Int32: 32, types.Int16: 16, types.Int8: 8,
+	types.Uint: 64, types.Uint64: 64, types.Uint32: 32, types.Uint16: 16, types.Uint8: 8, types.Uintptr: 64,
+	types.UntypedInt: 64, types.UntypedRune: 32}
+
+func kindSigned(k types.BasicKind) bool {
+	switch k {
+	case types.Int, types.Int64, types.Int32, types.Int16, types.Int8, types.UntypedInt, types.UntypedRune:
+		return true
+	}
+	return false
+}
+
+// concrete Go value of the given integer kind from raw bits
+func concreteInt(kind types.BasicKind, u uint64) value {
+	switch kind {
+	case types.Int, types.UntypedInt:
+		return int(int64(u))
+	case types.Int64:
+		return int64(u)
+	case types.Int32, types.UntypedRune:
+		return int32(uint32(u))
+	case types.Int16:
+		return int16(uint16(u))
+	case types.Int8:
+		return int8(uint8(u))
+	case types.Uint:
+		return uint(u)
+	case types.Uint64:
+		return u
+	case types.Uint32:
+		return uint32(u)
+	case types.Uint16:
+		return uint16(u)
+	case types.Uint8:
+		return uint8(u)
+	case types.Uintptr:
+		return uintptr(u)
+	}
+	panic(fmt.Sprintf("concreteInt kind %v", kind))
+}
+
 func liftI(v value) (symI, bool) {
 	switch x := v.(type) {
 	case symI:
@@ -59,6 +227,10 @@ func liftI(v value) (symI, bool) {
 		return symI{64, true, types.Int64, bvConst(uint64(x), 64)}, true
 	case int32:
 		return symI{32, true, types.Int32, bvConst(uint64(uint32(x)), 32)}, true
+	case int16:
+		return symI{16, true, types.Int16, bvConst(uint64(uint16(x)), 16)}, true
+	case int8:
+		return symI{8, true, types.Int8, bvConst(uint64(uint8(x)), 8)}, true
 	case uint8:
 		return symI{8, false, types.Uint8, bvConst(uint64(x), 8)}, true
 	case uint16:
@@ -69,6 +241,8 @@ func liftI(v value) (symI, bool) {
 		return symI{64, false, types.Uint, bvConst(uint64(x), 64)}, true
 	case uint64:
 		return symI{64, false, types.Uint64, bvConst(x, 64)}, true
+	case uintptr:
+		return symI{64, false, types.Uintptr, bvConst(uint64(x), 64)}, true
 	}
 	return symI{}, false
 }
@@ -96,36 +270,61 @@ func liftB(v value) (symB, bool) {
 	return symB{}, false
 }
 
-func symBinop(op token.Token, x, y value) (value, bool) {
-	if !isSym(x) && !isSym(y) {
+func symBinop(op token.Token, t types.Type, x, y value) (value, bool) {
+	if !isSymScalar(x) && !isSymScalar(y) {
+		if (op == token.EQL || op == token.NEQ) && (containsSym(x) || containsSym(y)) {
+			r := symEquals(t, x, y)
+			if op == token.NEQ {
+				return symNotV(r), true
+			}
+			return r, true
+		}
 		return nil, false
+	}
+	if r, ok := opaqueBinop(op, x, y); ok {
+		return r, true
 	}
 	if op == token.SHL || op == token.SHR {
 		a, _ := liftI(x)
 		return symShift(op, a, y), true
 	}
-	if _, isStr := x.(symStr); isStr || func() bool { _, ok := y.(symStr); return ok }() {
+	_, xs := x.(symStr)
+	_, ys := y.(symStr)
+	if xs || ys {
 		a, _ := liftStr(x)
 		b, _ := liftStr(y)
 		switch op {
 		case token.EQL:
-			return symStrEq(a, b), true
+			return boolVal(symStrEq(a, b)), true
 		case token.NEQ:
-			return symB{"(not " + symStrEq(a, b).t + ")"}, true
+			return boolVal(mkNot(symStrEq(a, b))), true
+		case token.ADD:
+			return symStrConcat(a, b), true
+		case token.LSS:
+			return boolVal(symStrLess(a, b)), true
+		case token.GTR:
+			return boolVal(symStrLess(b, a)), true
+		case token.LEQ:
+			return boolVal(mkNot(symStrLess(b, a))), true
+		case token.GEQ:
+			return boolVal(mkNot(symStrLess(a, b))), true
 		}
-		panic("symStr binop " + op.String())
+		panic("engine: symStr binop " + op.String())
 	}
 	if a, ok := liftI(x); ok {
 		b, ok2 := liftI(y)
 		if !ok2 {
-			panic(fmt.Sprintf("symBinop int vs %T", y))
+			panic(fmt.Sprintf("engine: symBinop int vs %T", y))
+		}
+		if a.w != b.w {
+			panic(fmt.Sprintf("engine: symBinop width mismatch %d vs %d (%s)", a.w, b.w, op))
 		}
 		s := "u"
 		if a.signed {
 			s = "s"
 		}
-		bin := func(o string) value { return symI{a.w, a.signed, a.kind, fmt.Sprintf("(%s %s %s)", o, a.t, b.t)} }
-		cmp := func(o string) value { return symB{fmt.Sprintf("(%s %s %s)", o, a.t, b.t)} }
+		bin := func(o string) value { return newI(a.w, a.signed, a.kind, fmt.Sprintf("(%s %s %s)", o, a.t, b.t)) }
+		cmp := func(o string) value { return boolVal(fmt.Sprintf("(%s %s %s)", o, a.t, b.t)) }
 		switch op {
 		case token.AND:
 			return bin("bvand"), true
@@ -134,13 +333,18 @@ func symBinop(op token.Token, x, y value) (value, bool) {
 		case token.XOR:
 			return bin("bvxor"), true
 		case token.AND_NOT:
-			return symI{a.w, a.signed, a.kind, fmt.Sprintf("(bvand %s (bvnot %s))", a.t, b.t)}, true
-		case token.QUO:
-			if a.signed {
-				return bin("bvsdiv"), true
+			return newI(a.w, a.signed, a.kind, fmt.Sprintf("(bvand %s (bvnot %s))", a.t, b.t)), true
+		case token.QUO, token.REM:
+			// division by zero panics in Go
+			if cur.branch(fmt.Sprintf("(= %s %s)", b.t, bvConst(0, b.w))) {
+				panic(targetPanic{iface{cur.interp.runtimeErrorString, "integer divide by zero"}})
 			}
-			return bin("bvudiv"), true
-		case token.REM:
+			if op == token.QUO {
+				if a.signed {
+					return bin("bvsdiv"), true
+				}
+				return bin("bvudiv"), true
+			}
 			if a.signed {
 				return bin("bvsrem"), true
 			}
@@ -154,7 +358,7 @@ func symBinop(op token.Token, x, y value) (value, bool) {
 		case token.EQL:
 			return cmp("="), true
 		case token.NEQ:
-			return symB{fmt.Sprintf("(not (= %s %s))", a.t, b.t)}, true
+			return boolVal(fmt.Sprintf("(not (= %s %s))", a.t, b.t)), true
 		case token.LSS:
 			return cmp("bv" + s + "lt"), true
 		case token.LEQ:
@@ -164,16 +368,29 @@ func symBinop(op token.Token, x, y value) (value, bool) {
 		case token.GEQ:
 			return cmp("bv" + s + "ge"), true
 		}
-		panic("symBinop int op " + op.String())
+		panic("engine: symBinop int op " + op.String())
 	}
 	if a, ok := liftF(x); ok {
 		b, _ := liftF(y)
-		cmp := func(o string) value { return symB{fmt.Sprintf("(%s %s %s)", o, a.t, b.t)} }
+		cmp := func(o string) value { return boolVal(fmt.Sprintf("(%s %s %s)", o, a.t, b.t)) }
+		ar := func(o string) value { return newF(a.bits, fmt.Sprintf("(%s RNE %s %s)", o, a.t, b.t)) }
+		if a.t == b.t && (op == token.EQL || op == token.NEQ) {
+			// x == x holds unless x is NaN; an integer converted to float is never NaN
+			nn := "(not (fp.isNaN " + a.t + "))"
+			if strings.HasPrefix(a.t, "((_ to_fp "+fpSort(a.bits)+") RNE (_ bv") || strings.HasPrefix(a.t, "((_ to_fp "+fpSort(a.bits)+") RNE |") ||
+				strings.HasPrefix(a.t, "((_ to_fp_unsigned ") {
+				nn = "true"
+			}
+			if op == token.NEQ {
+				return boolVal(mkNot(nn)), true
+			}
+			return boolVal(nn), true
+		}
 		switch op {
 		case token.EQL:
 			return cmp("fp.eq"), true
 		case token.NEQ:
-			return symB{fmt.Sprintf("(not (fp.eq %s %s))", a.t, b.t)}, true
+			return boolVal(fmt.Sprintf("(not (fp.eq %s %s))", a.t, b.t)), true
 		case token.LSS:
 			return cmp("fp.lt"), true
 		case token.LEQ:
@@ -182,40 +399,143 @@ func symBinop(op token.Token, x, y value) (value, bool) {
 			return cmp("fp.gt"), true
 		case token.GEQ:
 			return cmp("fp.geq"), true
+		case token.ADD:
+			return ar("fp.add"), true
+		case token.SUB:
+			return ar("fp.sub"), true
+		case token.MUL:
+			return ar("fp.mul"), true
+		case token.QUO:
+			return ar("fp.div"), true
 		}
-		panic("symBinop float op " + op.String())
+		panic("engine: symBinop float op " + op.String())
 	}
 	if a, ok := liftB(x); ok {
 		b, _ := liftB(y)
 		switch op {
 		case token.EQL:
-			return symB{fmt.Sprintf("(= %s %s)", a.t, b.t)}, true
+			return boolVal(fmt.Sprintf("(= %s %s)", a.t, b.t)), true
 		case token.NEQ:
-			return symB{fmt.Sprintf("(xor %s %s)", a.t, b.t)}, true
+			return boolVal(fmt.Sprintf("(xor %s %s)", a.t, b.t)), true
+		case token.AND, token.LAND:
+			return boolVal(mkAnd(a.t, b.t)), true
+		case token.OR, token.LOR:
+			return boolVal(mkOr(a.t, b.t)), true
 		}
 	}
-	panic(fmt.Sprintf("symBinop %T %s %T", x, op, y))
+	panic(fmt.Sprintf("engine: symBinop %T %s %T", x, op, y))
+}
+
+func symNotV(v value) value {
+	switch b := v.(type) {
+	case bool:
+		return !b
+	case symB:
+		return boolVal(mkNot(b.t))
+	}
+	panic("engine: symNotV")
+}
+
+// symEquals: Go equality on values that contain symbolic leaves; result bool or symB.
+func symEquals(t types.Type, x, y value) value {
+	return boolVal(eqTerm(t, x, y))
+}
+
+func eqTerm(t types.Type, x, y value) string {
+	if !containsSym(x) && !containsSym(y) {
+		if eqnil(t, x, y) {
+			return "true"
+		}
+		return "false"
+	}
+	switch xv := x.(type) {
+	case structure:
+		yv := y.(structure)
+		st, _ := t.Underlying().(*types.Struct)
+		var cs []string
+		for i := range xv {
+			var ft types.Type
+			if st != nil && i < st.NumFields() {
+				if st.Field(i).Name() == "_" {
+					continue
+				}
+				ft = st.Field(i).Type()
+			}
+			cs = append(cs, eqTerm(ft, xv[i], yv[i]))
+		}
+		return mkAnd(cs...)
+	case array:
+		yv := y.(array)
+		var et types.Type
+		if at, ok := t.Underlying().(*types.Array); ok {
+			et = at.Elem()
+		}
+		var cs []string
+		for i := range xv {
+			cs = append(cs, eqTerm(et, xv[i], yv[i]))
+		}
+		return mkAnd(cs...)
+	case iface:
+		yv, ok := y.(iface)
+		if !ok {
+			panic("engine: eqTerm iface vs non-iface")
+		}
+		if xv.t == nil || yv.t == nil {
+			if xv.t == nil && yv.t == nil {
+				return "true"
+			}
+			return "false"
+		}
+		if !types.Identical(xv.t, yv.t) {
+			return "false"
+		}
+		return eqTerm(xv.t, xv.v, yv.v)
+	}
+	if _, ok := y.(iface); ok {
+		panic("engine: eqTerm non-iface vs iface")
+	}
+	r, ok := symBinop(token.EQL, t, x, y)
+	if !ok {
+		panic(fmt.Sprintf("engine: eqTerm %T %T", x, y))
+	}
+	b, _ := liftB(r)
+	return b.t
 }
 
 func basicOf(t types.Type) *types.Basic { b, _ := t.Underlying().(*types.Basic); return b }
 
 func symConv(tdst types.Type, x value) (value, bool) {
-	if !isSym(x) {
+	if !isSymScalar(x) {
 		return nil, false
+	}
+	if ss, ok := x.(symStr); ok {
+		switch u := tdst.Underlying().(type) {
+		case *types.Basic:
+			if u.Kind() == types.String {
+				return x, true
+			}
+		case *types.Slice:
+			// []byte(s): needs a concrete length
+			n := ss.concreteLen()
+			out := make([]value, n)
+			for i := 0; i < n; i++ {
+				out[i] = ss.b[i]
+			}
+			return out, true
+		}
+		panic("engine: symConv symStr to " + tdst.String())
 	}
 	b := basicOf(tdst)
 	if b == nil {
-		panic("symConv to " + tdst.String())
+		panic("engine: symConv to " + tdst.String())
 	}
-	if _, ok := x.(symStr); ok && b.Kind() == types.String {
-		return x, true
-	}
-	width := map[types.BasicKind]int{types.Uint16: 16, types.Int: 64, types.Int64: 64, types.Int32: 32, types.Int16: 16, types.Int8: 8, types.Uint: 64, types.Uint64: 64, types.Uint32: 32, types.Uint8: 8}
 	switch v := x.(type) {
+	case symB:
+		return v, true
 	case symI:
 		if b.Info()&types.IsInteger != 0 {
-			w := width[b.Kind()]
-			signed := b.Info()&types.IsUnsigned == 0
+			w := kindWidth[b.Kind()]
+			signed := kindSigned(b.Kind())
 			var t string
 			switch {
 			case w == v.w:
@@ -227,7 +547,7 @@ func symConv(tdst types.Type, x value) (value, bool) {
 			default:
 				t = fmt.Sprintf("((_ zero_extend %d) %s)", w-v.w, v.t)
 			}
-			return symI{w, signed, b.Kind(), t}, true
+			return newI(w, signed, b.Kind(), t), true
 		}
 		if b.Info()&types.IsFloat != 0 {
 			bits := 64
@@ -238,7 +558,12 @@ func symConv(tdst types.Type, x value) (value, bool) {
 			if !v.signed {
 				f = "to_fp_unsigned"
 			}
-			return symF{bits, fmt.Sprintf("((_ %s %s) RNE %s)", f, fpSort(bits), v.t)}, true
+			return newF(bits, fmt.Sprintf("((_ %s %s) RNE %s)", f, fpSort(bits), v.t)), true
+		}
+		if b.Kind() == types.String {
+			// string(rune): concretise (rare)
+			u := cur.concretize(v)
+			return string(rune(int32(u))), true
 		}
 	case symF:
 		if b.Info()&types.IsFloat != 0 {
@@ -249,317 +574,291 @@ func symConv(tdst types.Type, x value) (value, bool) {
 			if bits == v.bits {
 				return v, true
 			}
-			return symF{bits, fmt.Sprintf("((_ to_fp %s) RNE %s)", fpSort(bits), v.t)}, true
+			return newF(bits, fmt.Sprintf("((_ to_fp %s) RNE %s)", fpSort(bits), v.t)), true
 		}
 		if b.Info()&types.IsInteger != 0 {
-			// Go: implementation-defined when out of range => fresh unconstrained value guarded by range
-			w := width[b.Kind()]
-			signed := b.Info()&types.IsUnsigned == 0
-			fresh := cur.fresh(fmt.Sprintf("(_ BitVec %d)", w), "f2i")
-			lo := fmt.Sprintf("((_ to_fp %s) RTZ (bvneg (bvshl (_ bv1 %d) (_ bv%d %d))))", fpSort(v.bits), w+1, w-1, w+1)
-			_ = lo
-			// in-range test done on the rounded-toward-zero integral value
+			// Go leaves out-of-range float->int implementation-defined: in range the result is
+			// truncation toward zero, otherwise an unconstrained fresh value (replay decides).
+			w := kindWidth[b.Kind()]
+			signed := kindSigned(b.Kind())
+			fresh := cur.fresh(bvSort(w), "f2i")
 			r := fmt.Sprintf("(fp.roundToIntegral RTZ %s)", v.t)
-			minF := fmt.Sprintf("((_ to_fp %s) RNE %s)", fpSort(v.bits), bvConst(uint64(1)<<uint(w-1), w))   // -2^(w-1) as signed bv
-			maxF := fmt.Sprintf("((_ to_fp_unsigned %s) RNE %s)", fpSort(v.bits), bvConst(uint64(1)<<uint(w-1), w)) // 2^(w-1)
-			inr := fmt.Sprintf("(and (not (fp.isNaN %s)) (fp.geq %s %s) (fp.lt %s %s))", v.t, r, minF, r, maxF)
-			cur.assume(fmt.Sprintf("(=> %s (= %s ((_ fp.to_sbv %d) RTZ %s)))", inr, fresh, w, v.t))
+			var inr, conv string
+			if signed {
+				minF := fmt.Sprintf("((_ to_fp %s) RNE %s)", fpSort(v.bits), bvConst(uint64(1)<<uint(w-1), w))
+				maxF := fmt.Sprintf("((_ to_fp_unsigned %s) RNE %s)", fpSort(v.bits), bvConst(uint64(1)<<uint(w-1), w))
+				inr = fmt.Sprintf("(and (not (fp.isNaN %s)) (fp.geq %s %s) (fp.lt %s %s))", v.t, r, minF, r, maxF)
+				conv = fmt.Sprintf("((_ fp.to_sbv %d) RTZ %s)", w, v.t)
+			} else {
+				maxF := fmt.Sprintf("(fp.mul RNE ((_ to_fp_unsigned %s) RNE %s) ((_ to_fp %s) RNE 2.0))", fpSort(v.bits), bvConst(uint64(1)<<uint(w-1), w), fpSort(v.bits))
+				inr = fmt.Sprintf("(and (not (fp.isNaN %s)) (fp.geq %s ((_ to_fp %s) RNE 0.0)) (fp.lt %s %s))", v.t, r, fpSort(v.bits), r, maxF)
+				conv = fmt.Sprintf("((_ fp.to_ubv %d) RTZ %s)", w, v.t)
+			}
+			cur.assume(fmt.Sprintf("(=> %s (= %s %s))", inr, fresh, conv))
+			cur.approx("float->int out of range: unconstrained result (Go: implementation-defined)")
 			return symI{w, signed, b.Kind(), fresh}, true
 		}
 	}
-	panic(fmt.Sprintf("symConv %T -> %s", x, tdst))
+	panic(fmt.Sprintf("engine: symConv %T -> %s", x, tdst))
 }
 
-// ---- explorer state (one per run of the harness)
-type decision struct {
-	n      int // arity (2 for branches)
-	taken  int
-	forced bool
-	cond   string // for binary symbolic branches
-}
-
-type Explorer struct {
-	z        *z3proc
-	stack    []decision
-	pos      int
-	pc       []string // path condition conjuncts (incl. assumptions)
-	nfresh   int
-	decls    []string
-	Queries  int
-	SolverNS time.Duration
-	Paths    int
-	Viol     []string
-	Covers   map[string]int
-	declared map[string]bool
-	zstack   []string
-	cache    map[string]string
-}
-
-var cur *Explorer
-
-func (e *Explorer) fresh(sort, hint string) string {
-	name := fmt.Sprintf("%s!%d", hint, e.nfresh)
-	e.nfresh++
-	if !e.declared[name] {
-		e.declared[name] = true
-		e.z.send(fmt.Sprintf("(declare-const |%s| %s)", name, sort))
+func symShift(op token.Token, a symI, y value) value {
+	b, ok := liftI(y)
+	if !ok {
+		panic("engine: shift count")
 	}
-	return "|" + name + "|"
-}
-func (e *Explorer) assume(c string) { e.pc = append(e.pc, c) }
-
-func (e *Explorer) sat(extra string) string {
-	e.Queries++
-	t0 := time.Now()
-	var sb strings.Builder
-	// sync solver assertion stack with the path condition (longest common prefix is kept)
-	lcp := 0
-	for lcp < len(e.zstack) && lcp < len(e.pc) && e.zstack[lcp] == e.pc[lcp] {
-		lcp++
+	bt := b.t
+	switch {
+	case b.w < a.w:
+		bt = fmt.Sprintf("((_ zero_extend %d) %s)", a.w-b.w, b.t)
+	case b.w > a.w:
+		// counts >= width: SMT shifts already saturate to 0 / sign; clamp then truncate
+		big := fmt.Sprintf("(bvuge %s %s)", b.t, bvConst(uint64(a.w), b.w))
+		bt = fmt.Sprintf("(ite %s %s ((_ extract %d 0) %s))", big, bvConst(uint64(a.w), a.w), a.w-1, b.t)
 	}
-	for i := len(e.zstack); i > lcp; i-- {
-		sb.WriteString("(pop)\n")
-	}
-	e.zstack = e.zstack[:lcp]
-	for _, c := range e.pc[lcp:] {
-		sb.WriteString("(push)\n(assert " + c + ")\n")
-		e.zstack = append(e.zstack, c)
-	}
-	sb.WriteString("(push)\n")
-	if extra != "" {
-		sb.WriteString("(assert " + extra + ")\n")
-	}
-	sb.WriteString("(check-sat)\n")
-	e.z.send(sb.String())
-	r := e.z.readLine()
-	e.SolverNS += time.Since(t0)
-	if r != "sat" && r != "unsat" {
-		fmt.Println("Z3 SAID:", r, "\nAFTER:", tailStr(sb.String(), 600))
-		panic("solver protocol")
-	}
-	return r
-}
-func (e *Explorer) model() string {
-	e.z.send("(get-model)")
-	m := e.z.readSexp()
-	return m
-}
-func (e *Explorer) pop() { e.z.send("(pop)") }
-
-// decide a symbolic branch
-func (e *Explorer) branch(c string) bool {
-	if e.pos < len(e.stack) {
-		d := e.stack[e.pos]
-		e.pos++
-		if d.taken == 1 {
-			e.assume(c)
-			return true
+	o := "bvshl"
+	if op == token.SHR {
+		o = "bvlshr"
+		if a.signed {
+			o = "bvashr"
 		}
-		e.assume("(not " + c + ")")
+	}
+	return newI(a.w, a.signed, a.kind, fmt.Sprintf("(%s %s %s)", o, a.t, bt))
+}
+
+func symUnop(op token.Token, x value) (value, bool) {
+	switch v := x.(type) {
+	case symB:
+		if op == token.NOT {
+			return boolVal(mkNot(v.t)), true
+		}
+	case symI:
+		switch op {
+		case token.SUB:
+			return newI(v.w, v.signed, v.kind, "(bvneg "+v.t+")"), true
+		case token.XOR:
+			return newI(v.w, v.signed, v.kind, "(bvnot "+v.t+")"), true
+		}
+	case symF:
+		if op == token.SUB {
+			return newF(v.bits, "(fp.neg "+v.t+")"), true
+		}
+	default:
+		return nil, false
+	}
+	panic(fmt.Sprintf("engine: symUnop %s %T", op, x))
+}
+
+// zeroTerm: reflect.Value.IsZero / "== zero value" on possibly symbolic values
+func zeroTerm(t types.Type, v value) string {
+	switch x := v.(type) {
+	case symI:
+		return fmt.Sprintf("(= %s %s)", x.t, bvConst(0, x.w))
+	case symF:
+		// reflect.IsZero for floats: bits == 0 (i.e. +0 only)
+		return fmt.Sprintf("(and (fp.isZero %s) (fp.isPositive %s))", x.t, x.t)
+	case symB:
+		return mkNot(x.t)
+	case symStr:
+		return fmt.Sprintf("(= %s %s)", lenTerm(x.n), bvConst(0, 64))
+	case structure:
+		st, _ := t.Underlying().(*types.Struct)
+		var cs []string
+		for i := range x {
+			var ft types.Type
+			if st != nil && i < st.NumFields() {
+				ft = st.Field(i).Type()
+			}
+			cs = append(cs, zeroTerm(ft, x[i]))
+		}
+		return mkAnd(cs...)
+	case array:
+		var et types.Type
+		if at, ok := t.Underlying().(*types.Array); ok {
+			et = at.Elem()
+		}
+		var cs []string
+		for i := range x {
+			cs = append(cs, zeroTerm(et, x[i]))
+		}
+		return mkAnd(cs...)
+	}
+	if isZeroConcrete(t, v) {
+		return "true"
+	}
+	return "false"
+}
+
+func isZeroConcrete(t types.Type, v value) bool {
+	switch x := v.(type) {
+	case nil:
+		return true
+	case bool:
+		return !x
+	case int:
+		return x == 0
+	case int8:
+		return x == 0
+	case int16:
+		return x == 0
+	case int32:
+		return x == 0
+	case int64:
+		return x == 0
+	case uint:
+		return x == 0
+	case uint8:
+		return x == 0
+	case uint16:
+		return x == 0
+	case uint32:
+		return x == 0
+	case uint64:
+		return x == 0
+	case uintptr:
+		return x == 0
+	case float32:
+		return math.Float32bits(x) == 0
+	case float64:
+		return math.Float64bits(x) == 0
+	case complex64:
+		return x == 0
+	case complex128:
+		return x == 0
+	case string:
+		return x == ""
+	case *value:
+		return x == nil
+	case []value:
+		return x == nil
+	case map[value]value:
+		return x == nil
+	case *hashmap:
+		return x == nil
+	case iface:
+		return x.t == nil
+	case *ssa_Function:
+		return x == nil
+	case *closure:
+		return x == nil
+	case chan value:
+		return x == nil
+	case rtype:
+		return x.t == nil
+	case symIdxPtr:
 		return false
 	}
-	rt := e.sat(c)
-	e.pop()
-	rf := "sat"
-	if rt == "sat" {
-		rf = e.sat("(not " + c + ")")
-		e.pop()
-	}
-	d := decision{n: 2, cond: c}
-	switch {
-	case rt == "sat" && rf == "sat":
-		d.taken = 1
-	case rt == "sat":
-		d.taken, d.forced = 1, true
-	case rf == "sat":
-		d.taken, d.forced = 0, true
-	default:
-		panic(pathAbort{"infeasible/unknown at branch: " + rt + "/" + rf})
-	}
-	e.stack = append(e.stack, d)
-	e.pos++
-	if d.taken == 1 {
-		e.assume(c)
-		return true
-	}
-	e.assume("(not " + c + ")")
-	return false
+	panic(fmt.Sprintf("engine: isZeroConcrete %T", v))
 }
 
-// n-ary concrete choice point (schedule choice)
-func (e *Explorer) choose(n int) int {
-	if n <= 1 {
-		return 0
-	}
-	if e.pos < len(e.stack) {
-		d := e.stack[e.pos]
-		e.pos++
-		return d.taken
-	}
-	e.stack = append(e.stack, decision{n: n, taken: n - 1})
-	e.pos++
-	return n - 1
+// pointer to an element selected by a symbolic index (read-only)
+type symIdxPtr struct {
+	elems []value
+	idx   symI
 }
 
-// advance to next unexplored path; false when done
-func (e *Explorer) next() bool {
-	for len(e.stack) > 0 {
-		d := &e.stack[len(e.stack)-1]
-		if !d.forced && d.taken > 0 {
-			d.taken--
-			if d.n == 2 {
-				d.forced = true // other side now
-			} else if d.taken == 0 {
-				d.forced = true
+func (p symIdxPtr) load() value { return iteLoad(p.elems, p.idx) }
+
+func iteLoad(elems []value, idx symI) value {
+	switch e0 := elems[0].(type) {
+	case structure:
+		out := make(structure, len(e0))
+		for f := range e0 {
+			col := make([]value, len(elems))
+			for i := range elems {
+				col[i] = elems[i].(structure)[f]
 			}
-			return true
+			out[f] = iteLoad(col, idx)
 		}
-		e.stack = e.stack[:len(e.stack)-1]
+		return out
 	}
-	return false
-}
-
-type pathAbort struct{ why string }
-
-// ---- z3 pipe
-type z3proc struct {
-	in  io.WriteCloser
-	out *bufio.Reader
-}
-
-func newZ3() *z3proc {
-	cmd := exec.Command("z3", "-in")
-	in, _ := cmd.StdinPipe()
-	out, _ := cmd.StdoutPipe()
-	if err := cmd.Start(); err != nil {
-		panic(err)
+	groups := map[string][]int{}
+	var order []string
+	w, signed, kind := 0, false, types.Invalid
+	for i, e := range elems {
+		si, ok := liftI(e)
+		if !ok {
+			panic(fmt.Sprintf("engine: iteLoad elem %T", e))
+		}
+		w, signed, kind = si.w, si.signed, si.kind
+		if _, seen := groups[si.t]; !seen {
+			order = append(order, si.t)
+		}
+		groups[si.t] = append(groups[si.t], i)
 	}
-	z := &z3proc{in, bufio.NewReader(out)}
-	z.send("(set-option :global-declarations true)")
-	return z
-}
-func (z *z3proc) send(s string) { io.WriteString(z.in, s+"\n") }
-func (z *z3proc) readLine() string {
-	l, _ := z.out.ReadString('\n')
-	return strings.TrimSpace(l)
-}
-func (z *z3proc) readSexp() string {
-	var sb strings.Builder
-	depth := 0
-	started := false
-	for {
-		l, err := z.out.ReadString('\n')
-		if err != nil {
-			break
-		}
-		sb.WriteString(l)
-		for _, c := range l {
-			if c == '(' {
-				depth++
-				started = true
-			} else if c == ')' {
-				depth--
-			}
-		}
-		if started && depth <= 0 {
-			break
+	if len(order) == 1 {
+		return elems[0]
+	}
+	def := order[0]
+	for _, k := range order {
+		if len(groups[k]) > len(groups[def]) {
+			def = k
 		}
 	}
-	return sb.String()
-}
-
-// ordered keys helper for deterministic + permutable map ranges
-func sortedKeys(m map[value]value) []value {
-	ks := make([]value, 0, len(m))
-	for k := range m {
-		ks = append(ks, k)
-	}
-	sort.Slice(ks, func(i, j int) bool { return fmt.Sprint(ks[i]) < fmt.Sprint(ks[j]) })
-	return ks
-}
-
-type orderedMapIter struct {
-	m    map[value]value
-	keys []value
-	i    int
-}
-
-func (it *orderedMapIter) next() tuple {
-	if it.i >= len(it.keys) {
-		return []value{false, nil, nil}
-	}
-	k := it.keys[it.i]
-	it.i++
-	return []value{true, k, it.m[k]}
-}
-
-// permute keys by a sequence of choices (Lehmer code) when in a zog function
-func permute(keys []value, schedule bool) []value {
-	if !schedule || cur == nil {
-		return keys
-	}
-	rest := append([]value{}, keys...)
-	var out []value
-	for len(rest) > 0 {
-		i := cur.choose(len(rest))
-		out = append(out, rest[i])
-		rest = append(rest[:i], rest[i+1:]...)
-	}
-	return out
-}
-var rangeSchedule bool
-
-var initAllowed = map[string]bool{"strings": true, "unicode": true, "unicode/utf8": true}
-
-// concretize a symbolic integer by model enumeration (forks one path per feasible value)
-func (e *Explorer) concretize(x symI) int64 {
-	for {
-		if e.pos < len(e.stack) {
-			d := e.stack[e.pos]
-			var u uint64
-			if k := strings.LastIndex(d.cond, "(_ bv"); k >= 0 {
-				fmt.Sscanf(d.cond[k+5:], "%d", &u)
-			}
-			if e.branch(d.cond) {
-				if x.signed && x.w < 64 {
-					sh := uint(64 - x.w)
-					return int64(u<<sh) >> sh
-				}
-				return int64(u)
-			}
+	t := def
+	for _, k := range order {
+		if k == def {
 			continue
 		}
-		r := e.sat("")
-		if r != "sat" {
-			e.pop()
-			panic(pathAbort{"concretize: " + r})
+		var ds []string
+		for _, i := range groups[k] {
+			ds = append(ds, fmt.Sprintf("(= %s %s)", idx.t, bvConst(uint64(i), idx.w)))
 		}
-		e.z.send("(get-value (" + x.t + "))")
-		resp := e.z.readSexp()
-		e.pop()
-		// parse #x... or #b...
-		i := strings.LastIndex(resp, "#x")
-		var u uint64
-		if i >= 0 {
-			fmt.Sscanf(strings.TrimRight(resp[i+2:], ") \n"), "%x", &u)
-		} else if j := strings.LastIndex(resp, "#b"); j >= 0 {
-			fmt.Sscanf(strings.TrimRight(resp[j+2:], ") \n"), "%b", &u)
-		} else {
-			panic(pathAbort{"concretize parse: " + resp})
-		}
-		if e.branch(fmt.Sprintf("(= %s %s)", x.t, bvConst(u, x.w))) {
-			if x.signed && x.w < 64 {
-				sh := uint(64 - x.w)
-				return int64(u<<sh) >> sh
-			}
-			return int64(u)
-		}
+		t = fmt.Sprintf("(ite %s %s %s)", mkOr(ds...), k, t)
 	}
+	return newI(w, signed, kind, t)
 }
 
-func tailStr(s string, n int) string {
-	if len(s) > n {
-		return s[len(s)-n:]
+// opaque formatted-number strings: only (in)equality with concrete strings is understood:
+// a formatted number is never empty and never equals a string that is not a number.
+func opaqueBinop(op token.Token, x, y value) (value, bool) {
+	ox, okx := x.(opaqueStr)
+	oy, oky := y.(opaqueStr)
+	if !okx && !oky {
+		return nil, false
 	}
-	return s
+	if op != token.EQL && op != token.NEQ {
+		panic(pathAbort{"unsupported: operator " + op.String() + " on a formatted-number string"})
+	}
+	var r value
+	switch {
+	case okx && oky:
+		if ox.kind != oy.kind {
+			panic(pathAbort{"unsupported: comparing formatted numbers of different kinds"})
+		}
+		r = symEquals(nil, ox.arg, oy.arg)
+	default:
+		other := y
+		if oky {
+			other = x
+		}
+		s, ok := other.(string)
+		if !ok {
+			panic(pathAbort{"unsupported: comparing a formatted number with a symbolic string"})
+		}
+		if looksNumeric(s) {
+			panic(pathAbort{"unsupported: comparing a formatted number with a numeric literal"})
+		}
+		r = false
+	}
+	if op == token.NEQ {
+		return symNotV(r), true
+	}
+	return r, true
+}
+
+func looksNumeric(s string) bool {
+	if s == "" {
+		return false
+	}
+	for _, c := range s {
+		if (c >= '0' && c <= '9') || c == '-' || c == '+' || c == '.' || c == 'e' || c == 'E' {
+			continue
+		}
+		if s == "NaN" || s == "+Inf" || s == "-Inf" || s == "Inf" {
+			return true
+		}
+		return false
+	}
+	return true
 }
